@@ -500,11 +500,47 @@ pub fn run(ctx: &Ctx) -> Vec<Eng> {
         });
     }
     e3b.bounds.push_str(&format!("; plus long runs: every primitive word of length <= 2 repeated to 255..257 and 511..513 events followed by one event of each kind ({} histories x 5 streams)", long_count(5, 2, &LONG_LENS)));
+    let grid = ratio_grid(if ctx.thorough { 32 } else { 16 }, 6);
+    let mut e3c = Eng::new(
+        "c10-ratio-sweeps",
+        "8-sample histories in which (a) consecutive sampling intervals alternate between d0 and d0*r (d0 in {7 ms, 0.25 s, 37 s}, pattern and its inverse), (b) consecutive values are v0*q^k (exponent pattern 0,1,2,1,0,1,1,0; v0 in {1.7, -640}: slowly drifting and fast changing signals), for every ratio of a dense grid (2^(1/16) (thorough 2^(1/32)) steps over 2^-6..2^6 plus 1 +- 2^-k, k = 3..20); 5 streams; reference with forward-error bound",
+        &format!("{} ratios x 8 sweeps x 5 streams", grid.len()),
+    );
+    {
+        let pat_a: [i32; 8] = [0, 0, 1, 1, 0, 1, 0, 0];
+        let vpat: [i32; 8] = [0, 1, 2, 1, 0, 1, 1, 0];
+        let mut cases: Vec<(u8, usize, f64)> = Vec::new();
+        for &r in &grid {
+            for k in 0..6 {
+                cases.push((0, k, r));
+            }
+            for k in 0..2 {
+                cases.push((1, k, r));
+            }
+        }
+        for kind in 0..5 {
+            par_cases(&mut e3c, &cases, budget, |&(what, k, r), e| {
+                e.executions += 1;
+                e.states += 1;
+                e.max_depth = e.max_depth.max(8);
+                let h: Vec<Ev> = if what == 0 {
+                    let d0 = [7_000_000i64, S / 4, 37 * S][k % 3] as f64;
+                    let inv = k >= 3;
+                    (0..8).map(|i| Ev::P((d0 * if (pat_a[i] == 1) != inv { r } else { 1.0 }).round().max(1.0) as i64, cyc[i % 4])).collect()
+                } else {
+                    let v0 = [1.7f64, -640.0][k];
+                    (0..8).map(|i| Ev::P([S / 2, 700_000_000][i % 2], (v0 * r.powi(vpat[i])) as f32)).collect()
+                };
+                e.sample(|| format!("{} sweep {} #{} ratio {:.5} [{}]", KINDS[kind], what, k, r, show(&h)));
+                e.transitions += check_history(kind, &h, natural_unit(kind), e, false);
+            });
+        }
+    }
     let mut e4 = Eng::new(
         "c10-units",
         "49 input units (7x7 grid) x 4 short histories x 5 streams: output unit of integral/derivative = input unit times/over seconds; to-state converters panic exactly when a present sample is wrongly dimensioned (dimension-checked build); non-trivial = unit differs from the stream's natural one",
         "49 x 4 x 5",
     );
     units(&mut e4);
-    vec![e1, e2, e3, e3b, e4]
+    vec![e1, e2, e3, e3b, e3c, e4]
 }
